@@ -75,6 +75,11 @@ type Step struct {
 	Limit    int    `json:"limit,omitempty"`     // list: client-side limit (0 = none)
 	Last     int    `json:"last,omitempty"`      // list: 0 = none, else 1+index of the tag passed as "last"
 	Batch    []Step `json:"batch,omitempty"`     // batch: operations issued concurrently on one client
+	// race: Batch holds one tagdel and one or two puts on ONE tag (operations that do not commute), issued concurrently;
+	// operation Late (a put) starts when the others have sent At requests, and the request after that is held back until
+	// the late operation's first request was answered (registry systems; a layout has no requests to count)
+	Late int `json:"late,omitempty"`
+	At   int `json:"at,omitempty"`
 	// Var is a variant of how the operation is issued (ways /repo itself reaches the API):
 	//   tagdig  reference carries tag AND digest (regctl manifest delete --force-tag-dereference, "repo:tag@digest" arguments)
 	//   bare    reference without tag (means "latest"; only drawn for that tag)
@@ -165,6 +170,7 @@ var opKinds = []string{
 	"head", "get",
 	"close",
 	"batch", "batch", "batch",
+	"race", "race",
 }
 
 var batchKinds = []string{"put", "put", "put", "tagdel", "tagdel", "putdig", "head", "get", "mandel"}
@@ -225,6 +231,24 @@ func genStep(t *rapid.T, l string, kinds []string, tagIdx int) Step {
 		return s
 	case "close":
 		return Step{Op: "close"}
+	case "race":
+		// one tag delete against one or two pushes to the SAME tag; any manifest (shared with other tags or not)
+		s := Step{Op: "race", Tag: tg}
+		np := rapid.IntRange(1, 2).Draw(t, l+"_rputs")
+		pos := rapid.IntRange(0, np).Draw(t, l+"_rdelpos")
+		for i := 0; i <= np; i++ {
+			if i == pos {
+				s.Batch = append(s.Batch, Step{Op: "tagdel", Tag: tg})
+				continue
+			}
+			s.Batch = append(s.Batch, Step{Op: "put", Tag: tg, Man: rapid.SampledFrom([]int{0, 0, 0, 1, 1, 2, 2, 3, 4}).Draw(t, fmt.Sprintf("%s_rman%d", l, i))})
+		}
+		s.Late = rapid.IntRange(0, np-1).Draw(t, l+"_rlate")
+		if s.Late >= pos {
+			s.Late++ // index of a put
+		}
+		s.At = rapid.IntRange(0, 14).Draw(t, l+"_rat")
+		return s
 	}
 	// batch: 2-4 operations on pairwise distinct tags
 	n := rapid.IntRange(2, 4).Draw(t, l+"_bn")
@@ -936,10 +960,13 @@ func describe(s Step) string {
 		return fmt.Sprintf("%s tag %q", s.Op, Tags[s.Tag])
 	case "list":
 		return fmt.Sprintf("list limit=%d last=%d", s.Limit, s.Last)
-	case "batch":
+	case "batch", "race":
 		parts := []string{}
 		for _, b := range s.Batch {
 			parts = append(parts, describe(b))
+		}
+		if s.Op == "race" {
+			return fmt.Sprintf("race{%s; #%d starts after %d requests of the others}", strings.Join(parts, " | "), s.Late, s.At)
 		}
 		return "batch{" + strings.Join(parts, " | ") + "}"
 	}
@@ -1541,6 +1568,9 @@ func (e *env) step(s Step) *evid.Violation {
 	if e.c.Fresh {
 		e.rc = rcutil.New(e.m, e.conf)
 	}
+	if s.Op == "race" {
+		return e.race(s)
+	}
 	if s.Op != "batch" {
 		return e.plain(s)
 	}
@@ -1594,6 +1624,213 @@ func (e *env) step(s Step) *evid.Violation {
 	}
 	if sym, msg := e.verify("", ""); sym != "" {
 		return evid.V("batch:"+sym, "after the concurrent batch: %s", msg)
+	}
+	return nil
+}
+
+// ---- operations on one tag that do not commute -----------------------------------------
+
+type raceKey struct{}
+
+// raceGate owns the one scheduling decision of a race step: when the late operation starts.
+type raceGate struct {
+	mu             sync.Mutex
+	cond           *sync.Cond
+	late, at       int
+	arrivals       int
+	released       bool // the late operation may start
+	lateAnswered   bool // its first request was answered (or it ended without one)
+	others, ended  int
+}
+
+func (g *raceGate) onArrive(en *rm.Entry) {
+	op, ok := en.Ctx.Value(raceKey{}).(int)
+	if !ok || op == g.late {
+		return
+	}
+	g.mu.Lock()
+	defer g.mu.Unlock()
+	for g.released && !g.lateAnswered {
+		g.cond.Wait()
+	}
+	g.arrivals++
+	if g.arrivals >= g.at && !g.released {
+		g.released = true
+		g.cond.Broadcast()
+	}
+}
+
+func (g *raceGate) onDone(en *rm.Entry) {
+	if op, ok := en.Ctx.Value(raceKey{}).(int); ok && op == g.late {
+		g.mu.Lock()
+		g.lateAnswered = true
+		g.cond.Broadcast()
+		g.mu.Unlock()
+	}
+}
+
+// race issues one tag delete and one or two pushes for the SAME tag concurrently. The operations do not commute, so
+// the oracle is serialisability against the map model: the results of the calls and the state found afterwards must be
+// those of SOME order of the operations (a tag is a register: whichever write the backend took last wins, a delete
+// that found the tag removes that tag alone), and everything the operations did not address - the other tags, every
+// stored manifest - must be exactly what that order leaves. Two concurrent deletes of one tag are not generated: the
+// placeholder fall-back of a registry without tag deletion legitimately lets both succeed.
+func (e *env) race(s Step) *evid.Violation {
+	if e.blockedByKnown(s.Batch) {
+		e.class("race:sequential-fallback")
+		for _, b := range s.Batch {
+			if v := e.plain(b); v != nil {
+				return v
+			}
+		}
+		return nil
+	}
+	e.ntConc = true
+	e.class(fmt.Sprintf("race:put-vs-tagdel-%d", len(s.Batch)))
+	if !e.lay && !e.c.Feat.TagDelete {
+		e.class("race:placeholder-fallback-delete")
+	}
+	pre := e.mod.clone()
+	if _, ok := pre.tags[Tags[s.Tag]]; ok {
+		e.class("race:tag-present-before")
+		if pre.sharers(pre.tags[Tags[s.Tag]]) > 1 {
+			e.class("race:tag-shares-manifest-before")
+		}
+	}
+	g := &raceGate{late: s.Late, at: s.At, others: len(s.Batch) - 1}
+	g.cond = sync.NewCond(&g.mu)
+	if e.lay || s.At == 0 {
+		g.released = true
+		g.lateAnswered = e.lay // a layout sends no requests: nothing to hold back
+	}
+	if !e.lay {
+		e.m.Lock()
+		e.m.OnArrive, e.m.OnDone = g.onArrive, g.onDone
+		e.m.Unlock()
+		defer func() {
+			e.m.Lock()
+			e.m.OnArrive, e.m.OnDone = nil, nil
+			e.m.Unlock()
+		}()
+	}
+	res := make([]opResult, len(s.Batch))
+	var wg sync.WaitGroup
+	start := make(chan struct{})
+	base := e.ctx
+	for i := range s.Batch {
+		wg.Add(1)
+		go func(i int) {
+			defer wg.Done()
+			defer func() {
+				if r := recover(); r != nil {
+					res[i] = opResult{viol: evid.V("panic", "panic in %s: %v", describe(s.Batch[i]), r)}
+				}
+				g.mu.Lock()
+				if i == g.late {
+					g.lateAnswered = true
+				} else {
+					g.ended++
+				}
+				g.cond.Broadcast()
+				g.mu.Unlock()
+			}()
+			<-start
+			if i == g.late {
+				g.mu.Lock()
+				for !g.released && g.ended < g.others {
+					g.cond.Wait()
+				}
+				g.released = true
+				g.mu.Unlock()
+			}
+			ctx := context.WithValue(base, raceKey{}, i)
+			b := s.Batch[i]
+			switch b.Op {
+			case "put":
+				m, err := newMan(pool.Mans[b.Man], nil)
+				if err != nil {
+					res[i] = opResult{viol: &evid.Violation{Sig: "harness-manifest-new", Msg: err.Error()}}
+					return
+				}
+				res[i] = opResult{err: e.rc.ManifestPut(ctx, e.tagRef(Tags[b.Tag]), m)}
+			case "tagdel":
+				res[i] = opResult{err: e.rc.TagDelete(ctx, e.tagRef(Tags[b.Tag]))}
+			}
+		}(i)
+	}
+	close(start)
+	wg.Wait()
+	if e.lay && e.c.CloseEach {
+		if err := e.rc.Close(e.ctx, e.base); err != nil {
+			return evid.V("race:close/unexpected-error", "Close after the concurrent operations failed: %v", err)
+		}
+	}
+	for i := range res {
+		if res[i].viol != nil {
+			res[i].viol.Sig = "race:" + res[i].viol.Sig
+			return res[i].viol
+		}
+	}
+	// what the tag resolves to now
+	got := ""
+	if m, err := e.rc.ManifestHead(e.ctx, e.tagRef(Tags[s.Tag]), regclient.WithManifestRequireDigest()); err == nil {
+		got = m.GetDescriptor().Digest.String()
+	}
+	// every order of the operations whose results and final tag value agree with what happened
+	n := len(s.Batch)
+	idx := make([]int, n)
+	for i := range idx {
+		idx[i] = i
+	}
+	var chosen *model
+	chosenOrder := ""
+	var firstMismatch string
+	var permute func(k int)
+	permute = func(k int) {
+		if chosen != nil {
+			return
+		}
+		if k == n {
+			mod := pre.clone()
+			for _, i := range idx {
+				ex := apply(mod, s.Batch[i])
+				if v := judgeResult(s.Batch[i], ex, res[i].err); v != nil {
+					if firstMismatch == "" {
+						firstMismatch = v.Msg
+					}
+					return
+				}
+			}
+			if mod.tags[Tags[s.Tag]] != got {
+				return
+			}
+			chosen = mod
+			chosenOrder = fmt.Sprint(idx)
+			return
+		}
+		for j := k; j < n; j++ {
+			idx[k], idx[j] = idx[j], idx[k]
+			permute(k + 1)
+			idx[k], idx[j] = idx[j], idx[k]
+		}
+	}
+	permute(0)
+	if chosen == nil {
+		outs := []string{}
+		for i := range res {
+			outs = append(outs, fmt.Sprintf("%s -> %v", describe(s.Batch[i]), res[i].err))
+		}
+		return evid.V("race:outcome-matches-no-order", "%s: results [%s], the tag then resolves to %s (before: %s): no order of the operations explains this (%s)",
+			describe(s), strings.Join(outs, "; "), manName(got), manName(pre.tags[Tags[s.Tag]]), firstMismatch)
+	}
+	e.class("race:explained-by-an-order")
+	_ = chosenOrder
+	for _, b := range s.Batch {
+		e.note(b, pre)
+	}
+	e.mod = chosen
+	if sym, msg := e.verify("", ""); sym != "" {
+		return evid.V("race:"+sym, "after %s (explained as order %s): %s", describe(s), chosenOrder, msg)
 	}
 	return nil
 }
